@@ -1544,6 +1544,13 @@ class Exec:
             ce = item.context_expr
             ok = isinstance(ce, ast.Call) and isinstance(ce.func, ast.Attribute) and isinstance(ce.func.value, ast.Name) \
                 and (ce.func.value.id == "warnings" or (ce.func.value.id == "np" and ce.func.attr == "errstate"))      # floating-point warning state only
+            if not ok and isinstance(ce, ast.Call) and isinstance(ce.func, ast.Name) and ce.func.id == "open" and "open" in self.module_env \
+                    and (item.optional_vars is None or isinstance(item.optional_vars, ast.Name)):
+                # `with open(name, mode) as f:` - the file object is what the contract's model of open() returns; closing is not modelled
+                v = self.ev(ce, st)
+                if item.optional_vars is not None:
+                    st.env[item.optional_vars.id] = v
+                ok = True
             if not ok:
                 raise Undecided(f"with-statement at line {n.lineno}")
         return self.run(n.body, st)
